@@ -109,12 +109,55 @@ def check_every_hour_counts(ctx, prog, f, rule="c12.weight"):
         ctx.ok(rule, key, "every row of the July day is recorded (no path through the hour loop skips the pushes)", f.loc(info["line"]))
 
 
+def check_triangles_are_polygons(ctx, prog, rule="c12.corners"):
+    """"windows and obstacles of any shape": the smallest polygon that has an area, a frame of its own and can hide or be hidden is the triangle.  Every test of
+    a vertex count against a constant in the geometry and ray-tracing code is evaluated for 2, 3 and 4 corners: a test that treats 3 like 2 and unlike 4
+    drops triangular walls (a gable), their windows (no sample points: factor 1) or triangular obstacles."""
+    import operator
+    OPS = {"Lt": operator.lt, "Le": operator.le, "Gt": operator.gt, "Ge": operator.ge, "Eq": operator.eq, "Ne": operator.ne}
+    n = 0
+    for f in sorted(prog.fns.values(), key=lambda f: f.id):
+        if f.crate != "bemodel" or f.raw.get("impl_derived") or not (f.path.startswith("bemodel::types::opaques") or f.path.startswith("bemodel::types::geometry")
+                                                                     or f.path.startswith("bemodel::<types::") or f.path.startswith("bemodel::types::")
+                                                                     or f.path.startswith("bemodel::energy::radiation") or f.path.startswith("bemodel::energy::raytracing")):
+            continue
+        sc = Scope(prog, f)
+        for b in range(f.body.n):
+            t = f.body.blocks[b]["term"]
+            if t["t"] != "switch":
+                continue
+            d = strip(sc.operand(t["d"]))
+            if d[0] != "bin" or d[1] not in OPS:
+                continue
+            lhs, rhs = strip(d[2]), strip(d[3])
+            if rhs[0] != "k" or not (lhs[0] == "call" and short_callee(lhs[1]) == "len"):
+                continue
+            what = show(lhs)
+            if "polygon" not in what.lower() and "vertices" not in what.lower():
+                continue
+            try:
+                k = int(float(rhs[1]))
+            except ValueError:
+                continue
+            n += 1
+            o2, o3, o4 = (OPS[d[1]](x, k) for x in (2, 3, 4))
+            key = "%s|%s|%s %s %d" % (rule, f.path.split("::")[-1], "len", d[1], k)
+            if o2 == o3 and o3 != o4:
+                ctx.violation(rule, key, "`%s %s %d` treats a triangle like a two-point outline and unlike a quadrilateral: triangular elements (a gable wall and its "
+                              "windows, a triangular shade) are handled as if they had no geometry" % (what[:60], {"Lt": "<", "Le": "<=", "Gt": ">", "Ge": ">=", "Eq": "==", "Ne": "!="}[d[1]], k),
+                              f.loc(t.get("ln")))
+            else:
+                ctx.ok(rule, key, "a triangle falls on the side of the polygons", f.loc(t.get("ln")))
+    ctx.floor(rule, "vertex-count tests in the geometry code", n, 1)
+
+
 def run(ctx):
     prog = ctx.prog
     f = prog.method("types::model::Model", None, "compute_fshobst")
     root = Scope(prog, f)
     ups = updates(root)
     check_every_hour_counts(ctx, prog, f)
+    check_triangles_are_polygons(ctx, prog)
     # D1
     acc = [u for u in ups if u["dest"] == "fshobst_sum" and u["op"] == "+="]
     ctx.require(len(acc) == 1, "compute_fshobst: `fshobst_sum += ..` not found")
